@@ -168,11 +168,43 @@ func runAuth(c Case, tr *Tracer) {
 	var acc2, auth2 string
 	var ts2 uint32
 	decerr := err != nil
+	dsite := ""
 	if !decerr {
 		// "transmitted": the receiver decodes from its read buffer, which is reused for the next packet
 		// before the application gets to verify the authenticator
 		rbuf := append([]byte{}, wire...)
-		switch proto {
+		viaDispatcher := caseInt(c, "t")%2 == 1
+		if viaDispatcher {
+			// a server reads every frame through the package's dispatcher; the login it is about to verify is still in
+			// its hands when the next client's login comes in and is decoded the same way
+			dsite = "/dispatcher"
+			first, derr := dispatchers[proto](rbuf)
+			for i := range rbuf {
+				rbuf[i] = 0xAA
+			}
+			var decoy []byte
+			switch proto {
+			case "cmpp20":
+				decoy, _ = (&cmpp20.PduConnect{Header: cmpp.NewHeader(0, cmpp.CommandConnect, 9), SourceAddr: "decoy1", AuthenticatorSource: "0123456789abcdef", Version: cmpp.Version20, Timestamp: 101010101}).IEncode()
+			case "cmpp30":
+				decoy, _ = (&cmpp30.Connect{Header: cmpp.NewHeader(0, cmpp.CommandConnect, 9), SourceAddr: "decoy1", AuthenticatorSource: "0123456789abcdef", Version: cmpp.Version30, Timestamp: 101010101}).IEncode()
+			case "smgp30":
+				decoy, _ = (&smgp30.Login{Header: smgp.NewHeader(0, smgp.CommandLogin, 9), ClientID: "decoy1", AuthenticatorClient: "0123456789abcdef", LoginMode: 2, Timestamp: 101010101, Version: 0x30}).IEncode()
+			}
+			_, _ = dispatchers[proto](decoy)
+			decerr = derr != nil
+			switch p := first.(type) {
+			case *cmpp20.PduConnect:
+				acc2, auth2, ts2 = p.SourceAddr, p.AuthenticatorSource, p.Timestamp
+			case *cmpp30.Connect:
+				acc2, auth2, ts2 = p.SourceAddr, p.AuthenticatorSource, p.Timestamp
+			case *smgp30.Login:
+				acc2, auth2, ts2 = p.ClientID, p.AuthenticatorClient, p.Timestamp
+			default:
+				decerr = true
+			}
+		}
+		switch map[bool]string{true: "", false: proto}[viaDispatcher] {
 		case "cmpp20":
 			var p cmpp20.PduConnect
 			decerr = p.IDecode(rbuf) != nil
@@ -197,7 +229,7 @@ func runAuth(c Case, tr *Tracer) {
 		}
 		acc2, auth2 = string(append([]byte{}, acc2...)), string(append([]byte{}, auth2...))
 	}
-	tr.emit(Ev{"ev": "SrvDecode", "decerr": decerr, "account2": S(acc2), "auth2": S(auth2), "ts2": int(ts2), "site": site})
+	tr.emit(Ev{"ev": "SrvDecode", "decerr": decerr, "account2": S(acc2), "auth2": S(auth2), "ts2": int(ts2), "site": site + dsite})
 	if decerr {
 		return
 	}
